@@ -24,6 +24,7 @@ ASSUMPTIONS = [
     "input names are outside the haplotype-prefix pattern <hap>_..._<n> and the generated namespaces (documented routing would apply)",
     "'same order' is read as row order within each scaffold; the order of scaffolds in an output file is C10's natural sort",
     "painted mode excludes scaffolds absent from the map (they stay unplaced and keep their names)",
+    "between two contigs there are 0, 1 or 2 gap rows",
 ]
 
 
@@ -160,7 +161,7 @@ def body_cli(case, rec):
 @st.composite
 def cases(draw, painted=False, small=False):
     t = draw(gen.texel())
-    inp = draw(gen.input_assembly(t, last_contig_min=math.ceil(t), max_scaffolds=4 if small else 6, max_contigs=6 if small else 10))
+    inp = draw(gen.input_assembly(t, last_contig_min=math.ceil(t), max_scaffolds=4 if small else 6, max_contigs=6 if small else 10, double_gaps=True))
     # scaffolds shorter than a texel (several tiny contigs, abutting or separated by 1-bp gaps): absent from
     # the map or presented as one (ceil-rounded) texel; the last-contig precondition concerns presented scaffolds
     if t >= 3 and not painted:
@@ -176,6 +177,10 @@ def cases(draw, painted=False, small=False):
                     rows.append(["G", 1, "scaffold"])
                     budget -= 1
                     pos += 1
+                    if budget > 1 and draw(st.integers(0, 2)) == 0:
+                        rows.append(["G", 1, "centromere"])  # two consecutive gap rows
+                        budget -= 1
+                        pos += 1
                 n += 1
                 rows.append(["F", name, pos, pos + ln - 1, 1] if fasta_shaped else ["F", f"t{k}_{n}", 1, ln, draw(st.sampled_from([1, -1]))])
                 pos += ln
